@@ -15,17 +15,33 @@ def keyfn(case, res, m):
 def run(chk):
     chk.audit(PROPS)
     quick = chk.tier == 'quick'
-    n_mixed = 900 if quick else 40000
-    n_burst = 320 if quick else 12000
+    n_mixed = 900 if quick else 24000
+    n_burst = 320 if quick else 8000
 
     def gen_mixed(rng):
-        return scen_batch.gen_case(rng, chk.tier, rng.choice(['', '', '', 'lone', 'boundary', 'boundary']))
+        return scen_batch.gen_case(rng, chk.tier, rng.choice(['', '', '', 'single', 'lone', 'boundary', 'boundary']))
 
     def gen_burst(rng):
         return scen_batch.gen_case(rng, chk.tier, 'burst')
 
-    core.e1_flow(chk, 'scen_batch', 'batch', {'C09'}, gen_mixed, n_mixed, keyfn=keyfn)
-    core.e1_flow(chk, 'scen_batch', 'batch', {'C09'}, gen_burst, n_burst, keyfn=keyfn)
+    r1 = core.e1_flow(chk, 'scen_batch', 'batch', {'C09'}, gen_mixed, n_mixed, keyfn=keyfn)
+    r2 = core.e1_flow(chk, 'scen_batch', 'batch', {'C09'}, gen_burst, n_burst, keyfn=keyfn)
+    # what was actually exercised (model actions = event kinds; see scen_batch.model_lines)
+    import collections
+    evk = collections.Counter()
+    dist = collections.Counter()
+    for case, res in r1 + r2:
+        for e in res.get('events', []):
+            evk[e[1]] += 1
+        dist[f"k={case['k']}"] += 1
+        dist[f"b={case['b']}"] += 1
+        dist['pool' if case['nst'] else 'nopool'] += 1
+        dist[f"bias={case['bias'] or 'none'}"] += 1
+        for n in res.get('batch_sizes', []):
+            dist['batches_full' if case['b'] > 1 and n == case['b'] else ('batches_partial' if case['b'] > 1 else 'single_calls')] += 1
+        if any(e[1] == 'bempty' for e in res.get('events', [])):
+            dist['cases_with_deadline_expiry'] += 1
+    chk.cov['distribution'] = dict(events_by_kind=dict(evk), cases=dict(dist))
     chk.cov['rule'] = (
         'cases = random (k=1..3 worker threads sharing q_in/q_out, batch_size 0..5(8), batch_wait_time 0..8 ticks, '
         'num_stream_threads 0/2/3, preprocess defined or not, arrival pattern with virtual-time gaps incl. ties with the '
